@@ -21,7 +21,7 @@ def seed_table(wave):
         sig=(det.get('first_signature') or '').replace('|','/')[:100]
         rows.append(f"| {os.path.basename(d)} | {s} | {fa} | `{sig}` |")
     return "\n".join(rows)
-blocks={'evidence':evidence_table,'seeds_w1':lambda:seed_table('w1'),'seeds_w2':lambda:seed_table('w2'),'seeds_w3':lambda:seed_table('w3'),'seeds_w4':lambda:seed_table('w4'),'seeds_w5':lambda:seed_table('w5'),'seeds_w6':lambda:seed_table('w6'),'seeds_w7':lambda:seed_table('w7')}
+blocks={'evidence':evidence_table,'seeds_w1':lambda:seed_table('w1'),'seeds_w2':lambda:seed_table('w2'),'seeds_w3':lambda:seed_table('w3'),'seeds_w4':lambda:seed_table('w4'),'seeds_w5':lambda:seed_table('w5'),'seeds_w6':lambda:seed_table('w6'),'seeds_w7':lambda:seed_table('w7'),'seeds_w8':lambda:seed_table('w8')}
 p=ROOT+'/DESIGN.md'; s=open(p).read()
 for name,fn in blocks.items():
     pat=re.compile(r'(<!-- gen:%s -->\n).*?(<!-- /gen:%s -->)'%(name,name),re.S)
